@@ -298,7 +298,7 @@ def run(ctx):
         else:
             if i_ranks != m_ranks:
                 ndis += 1
-                ctx.violation('model-drift:_moving-ball', 'model of the ball-tree path (given the eligible list) and impl disagree',
+                ctx.violation('model-drift:_moving-ball', 'model of _moving with the ball-tree shortcut (premise + scan of the eligible list, else standard loop) and impl disagree',
                               {'case': sx_str(c), 'impl': i_ranks, 'model': m_ranks, 'eligibles': ii[3]}, found_input=False)
             d2s = [unq(x) for x in info[2]]
             if i_ranks != spec and all(0 <= j < len(d2s) for j in i_ranks) and sorted(d2s[j] for j in i_ranks) == sorted(d2s[j] for j in spec):
@@ -313,7 +313,8 @@ def run(ctx):
                               {'case': sx_str(small), 'impl': s_impl, 'spec': s_spec})
         # NeighMoving::summary: model of the code vs impl (decisions exact, distances within the tie-break perturbation)
         if i_ranks == m_ranks:
-            sm, sp = sums
+            sm, sp, taken = sums
+            if meta['ball']: ctx.dist('ball_shortcut_taken' if taken else 'ball_fallback')
             n_s = len(c[7]); M = math.sqrt(float(unq(info[4])))
             tol = (n_s + 2) * EPS9 * M + 1e-9 * (1 + M)
             def rt(x): return None if x == [] else math.sqrt(float(unq(x)))
@@ -326,6 +327,16 @@ def run(ctx):
             elif (dv(isum[2]) is None) != (rt(sm[2]) is None) or (rt(sm[2]) is not None and abs(dv(isum[2]) - rt(sm[2])) > tol): bad = 'MinDist'
             elif dv(isum[3]) != sm[3]: bad = 'NbNESect'
             elif dv(isum[4]) != sm[4]: bad = 'NbCESect'
+            # property-level verdict on the unambiguous part: with a single sector the columns Number / MaxDist / MinDist
+            # describe the samples returned
+            if not meta['ball'] and (nsect == 1 or ndim == 1) and len(isum) == 5:
+                for col, k_ in (('Number', 0), ('MaxDist', 1), ('MinDist', 2)):
+                    want = sp[0] if k_ == 0 else rt(sp[k_]); got = dv(isum[k_])
+                    okc = (got == want) if (k_ == 0 or want is None or got is None) else abs(got - want) <= tol
+                    if not okc:
+                        ndis += 1; found_input = True
+                        ctx.violation('summary:' + col, 'NeighMoving::summary (single sector): %s = %s, the samples returned give %s' % (col, got, want), {'case': sx_str(c), 'impl': [dv(x) for x in isum]})
+                        break
             if bad:
                 ndis += 1
                 ctx.violation('model-drift:summary', 'NeighMoving::summary: column %s differs from the model of the code (impl %s, model %s)' % (bad, [dv(x) for x in isum], [sm[0], rt(sm[1]), rt(sm[2]), sm[3], sm[4]]),
@@ -440,7 +451,7 @@ def run(ctx):
                                 'harness/C06.cpp harvests rotation matrix / general-nsect sector / eligible list of the ball path from the implementation itself']
     ctx.notes += ['_moving: the test "nsel < nmini" after _movingSectorNsmax is dead code (nsel is passed by value and never recounted): C06_nmini proves that exit code unreachable; the neighbourhood is therefore NOT refused when the sector quota leaves fewer than nmini samples',
                   'C06_knn (k nearest, true distances, increasing order) is proved for the repaired simultaneous_sort (pivot_idx + 2 < size); the former witness of knn:result-not-sorted is kept in corpus/C06.sx and as Example C06_knn_sort_regression',
-                  'theorem C06_ball_moving holds only for the degenerate eligible list; C06_ball_moving_refuted gives the model witness of the ballsearch:* findings']
+                  'ball-tree shortcut of _moving: modelled as committed in 4a434731b (premise + scan of the samples returned, else standard loop); C06_ball_shortcut proves that whenever it is taken the ranks are those of the standard search; the eight former ballsearch:* witnesses are regression cases of corpus/C06.sx and fire again under their old keys if the guard is removed']
 
 def moving_site(c, impl, spec, info):
     ndim, nmini, nmaxi, nsect, nsmax = c[1]
